@@ -111,7 +111,7 @@ Proof.
   assert (Efu : f_uuid f = fresh (cs_next s)).
   { revert Hf. unfold cfinish_with. destruct (cs_heads s); [|discriminate]. destruct (cs_stack s) as [|root [|? ?]]; try discriminate.
     destruct (mapM _ root) as [ls|]; [|discriminate]. destruct (mapM _ (concat ls)) as [v|]; [|discriminate]. destruct (validate (map cn_uuid v)); [discriminate|].
-    intros H. injection H as <-. reflexivity. }
+    destruct (forallb node_groups_named v); [|discriminate]. intros H. injection H as <-. reflexivity. }
   destruct Hi as [[Hnodes [Hnd Hbelow]] _ _].
   assert (Hndn : NoDup nds). { apply Hv in Ev. eapply NoDup_map_inv, Ev. }
   assert (P : Permutation (flat_map node_def_ids (f_nodes f)) (flat_map given_ids nds ++ flat_map node_ids nds)).
